@@ -28,7 +28,8 @@ def main():
                 res["error"] = "patch does not apply: " + out[-300:]
                 print(json.dumps(res)); continue
             shutil.copy(os.path.join(d, "demo_test.go"), demo_dst)
-            demo_cmd = "go test -mod=mod -vet=off -count=1 -run '%s' ./%s/" % (pat, ddir)
+            race = " -race" if re.search(r"(^|\s)-race(\s|$)", meta["demo_cmd"]) else ""
+            demo_cmd = "go test -mod=mod -vet=off%s -count=1 -run '%s' ./%s/" % (race, pat, ddir)
             rc, out = sh(demo_cmd)
             res["demo_with_change"] = "FAIL" if rc != 0 else "PASS"
             res["demo_with_change_tail"] = out[-400:]
@@ -40,6 +41,21 @@ def main():
                 if not fails:
                     ok = True
                     break
+                pk = sorted(set(re.findall(r"^FAIL\s+github.com/yandex/pandora/(tests/\S+)", out, re.M)))
+                other = [l for l in fails if l.startswith("FAIL\t") and "/tests/" not in l]
+                if pk and not other:
+                    # only fixed-port packages failed (port collisions with other suite runs): run those alone
+                    good = True
+                    for q in pk:
+                        for again in range(3):
+                            rc2, out2 = sh("go test -mod=mod -vet=off -count=1 -p 1 ./%s/" % q)
+                            if rc2 == 0:
+                                break
+                        else:
+                            good = False
+                    if good:
+                        ok = True
+                        break
             res["suite_with_change"] = "PASS" if ok else "FAIL: " + "; ".join(fails[:5])
             sh("git checkout -- . && git clean -fdq")
             shutil.copy(os.path.join(d, "demo_test.go"), demo_dst)
